@@ -29,14 +29,15 @@ theorem next_total (s : RateOfChange F) (x : F) (h : WF s) :
            (first | omega | trivial)
        · rfl))
 
-theorem nextBar_eq (s : RateOfChange F) (b : Bar F) : s.nextBar b = s.next b.close := by
-  unfold nextBar
-  try simp only [gen_helper]
-  cases s.next b.close <;> rfl
-
 theorem nextBar_total (s : RateOfChange F) (b : Bar F) (h : WF s) :
     ∃ r, s.nextBar b = some r ∧ WF r.1 ∧ r.1.period = s.period := by
-  rw [nextBar_eq]; exact next_total s b.close h
+  unfold nextBar
+  try simp only [gen_helper]
+  simp only [Option.bind_eq_bind, Option.pure_def]
+  -- one `next` step on whichever scalar the bar path feeds to it (found by unification)
+  refine bind_total (next_total _ _ h) ?_
+  rintro ⟨s', o⟩ ⟨w, p⟩
+  exact ⟨_, rfl, w, p⟩
 
 /-- `reset` never panics on a well-formed state, yields a well-formed state and keeps the period
     (nothing is said about the cleared values) -/
